@@ -18,6 +18,8 @@ import Verif.Lemmas.MptWF
 import Verif.Lemmas.MptCanon
 import Verif.Lemmas.MptCanonDec
 import Verif.Lemmas.MptHistory
+import Verif.Lemmas.MptEncInj
+import Verif.Lemmas.MptEncWitness
 namespace Verif.Props.C02
 open Verif.Mpt
 
@@ -100,5 +102,62 @@ example : content 100 exOps₁ = content 100 exOps₂ ∧ content 100 exOps₁ [
   funext q
   simp only [content, contentFrom, exOps₁, exOps₂, List.foldl, stepMap]
   by_cases h1 : q = [0, 1] <;> by_cases h2 : q = [0, 2] <;> by_cases h3 : q = [3] <;> simp_all
+
+/-! ### D. "Two tries with different content have different roots" — false as stated; a partial form -/
+
+/-- the full claim: for a collision-free (injective) hash, equal roots imply equal content -/
+def C02_injective : Prop :=
+  ∀ H : Bytes → Bytes, Function.Injective H → ∀ (v : Nat) (t₁ t₂ : Node), WF t₁ → WF t₂ → AllOrigin v t₁ →
+    AllOrigin v t₂ → root H t₁ = root H t₂ → ∀ q, lookup t₁ q = lookup t₂ q
+
+/-- **Known finding (type confusion, leaf ↔ extension).**  The hash input has no node-type tag: an extension at
+    position `P` with path `P` whose child key starts with `:` encodes like a leaf at `P` with empty path.  Witness:
+    `H = id`, origin 58 (`xExt`, `xLeaf` in `Verif.Lemmas.MptEncWitness`). -/
+theorem C02_injective_false :
+    ∃ H : Bytes → Bytes, Function.Injective H ∧ ∃ (v : Nat) (t₁ t₂ : Node), WF t₁ ∧ WF t₂ ∧ AllOrigin v t₁ ∧
+      AllOrigin v t₂ ∧ (∃ q, lookup t₁ q ≠ lookup t₂ q) ∧ root H t₁ = root H t₂ :=
+  ⟨id, fun _ _ h => h, 58, xExt, xLeaf, by decide, by decide, by decide, by decide, ⟨[1], xLookup⟩, xRoot⟩
+
+/-- **Known finding (type confusion, leaf ↔ branch), for every hash function.**  A root leaf whose path is the hex
+    form of a node key and whose value is `hex(key₂) ++ 14 × ':'` has the same hash input as the root branch with
+    children 1 and 2 — no property of `H` is needed, so this is a collision for SHA3 as well. -/
+theorem C02_collision_any_hash (H : Bytes → Bytes) (v : Nat) :
+    ∃ t₁ t₂ : Node, WF t₁ ∧ WF t₂ ∧ AllOrigin v t₁ ∧ AllOrigin v t₂ ∧ (∃ q, lookup t₁ q ≠ lookup t₂ q) ∧
+      root H t₁ = root H t₂ :=
+  ⟨cLeaf H v, cFull v, (cWF H v).1, (cWF H v).2, (cOrigin H v).1, (cOrigin H v).2, ⟨[1], cLookup H v⟩, cRoot H v⟩
+
+/-- the full claim fails -/
+theorem C02_not_injective : ¬ C02_injective := by
+  intro h
+  obtain ⟨t₁, t₂, hw₁, hw₂, ho₁, ho₂, ⟨q, hq⟩, hr⟩ := C02_collision_any_hash id 0
+  exact hq (h id (fun _ _ e => e) 0 t₁ t₂ hw₁ hw₂ ho₁ ho₂ hr q)
+
+/-- **Partial form.**  If the hash has no collision among the node hash inputs of the two tries (`CollisionFree`,
+    implied by injectivity), never returns the nil key, and both tries are *type-unambiguous* (`Unamb`, see
+    `Verif.Lemmas.MptEncInj`), then equal roots imply equal tries.  `Unamb H t []` excludes exactly:
+    * leaf ↔ branch: a leaf located at `[]` or at a position spelling a hash whose value has ≥ 14 bytes `:`;
+    * extension ↔ leaf: an extension whose path equals its own position and whose child key is hex digits then `:`;
+    * extension ↔ branch: an extension whose path spells a hash and whose child key is hex digits then `:`. -/
+theorem C02_injective_partial (H : Bytes → Bytes) (hne : ∀ x, H x ≠ []) (v : Nat) (t₁ t₂ : Node)
+    (hcf : CollisionFree H t₁ t₂ []) (hw₁ : WF t₁) (hw₂ : WF t₂) (ho₁ : AllOrigin v t₁) (ho₂ : AllOrigin v t₂)
+    (hu₁ : Unamb H t₁ []) (hu₂ : Unamb H t₂ []) (h : root H t₁ = root H t₂) : t₁ = t₂ :=
+  key_inj H hne v t₁ t₂ [] hw₁ hw₂ ho₁ ho₂ hu₁ hu₂ hcf h
+
+/-- the partial form in the shape of `C02_injective` (injective hash, equal content) -/
+theorem C02_injective_partial_lookup (H : Bytes → Bytes) (hinj : Function.Injective H) (hne : ∀ x, H x ≠ [])
+    (v : Nat) (t₁ t₂ : Node) (hw₁ : WF t₁) (hw₂ : WF t₂) (ho₁ : AllOrigin v t₁) (ho₂ : AllOrigin v t₂)
+    (hu₁ : Unamb H t₁ []) (hu₂ : Unamb H t₂ []) (h : root H t₁ = root H t₂) : ∀ q, lookup t₁ q = lookup t₂ q := by
+  rw [C02_injective_partial H hne v t₁ t₂ (collisionFree_of_injective hinj _ _ _) hw₁ hw₂ ho₁ ho₂ hu₁ hu₂ h]
+  intro q; rfl
+
+/-- for a hash with `n`-byte output the length-based condition `UnambLen n` suffices (n = 32 for SHA3-256;
+    collision freedom is then the hypothesis `CollisionFree`, which — unlike injectivity — a compressing hash can
+    satisfy) -/
+theorem C02_injective_partial_fixed_length (H : Bytes → Bytes) (n : Nat) (hn : 0 < n) (hlen : ∀ x, (H x).length = n)
+    (v : Nat) (t₁ t₂ : Node) (hcf : CollisionFree H t₁ t₂ []) (hw₁ : WF t₁) (hw₂ : WF t₂) (ho₁ : AllOrigin v t₁)
+    (ho₂ : AllOrigin v t₂) (hu₁ : UnambLen n H t₁ []) (hu₂ : UnambLen n H t₂ []) (h : root H t₁ = root H t₂) :
+    t₁ = t₂ :=
+  C02_injective_partial H (fun x hx => by have := hlen x; rw [hx] at this; simp at this; omega) v t₁ t₂ hcf hw₁ hw₂
+    ho₁ ho₂ (unamb_of_unambLen hlen _ _ hu₁) (unamb_of_unambLen hlen _ _ hu₂) h
 
 end Verif.Props.C02
